@@ -3,7 +3,7 @@
    Util/Closure.v), Syn/SetsSpec.v (declarative definitions + naive executable specification).
    Lemmas: Syn/Sets_proofs.v, Syn/SetsSpec_proofs.v. *)
 From Coq Require Import List ZArith Bool.
-From TM Require Import Gram.Cfg Syn.Expr Syn.ExtLang Syn.Sets Syn.SetsSpec Syn.Sets_proofs Syn.SetsSpec_proofs Syn.SetsSpec_proofs2.
+From TM Require Import Gram.Cfg Syn.Expr Syn.ExtLang Syn.Sets Syn.SetsSpec Syn.Sets_proofs Syn.SetsSpec_proofs Syn.SetsSpec_proofs2 Syn.SetsSpec_proofs3.
 Import ListNotations.
 Local Open Scope Z_scope.
 
@@ -15,6 +15,8 @@ Local Open Scope Z_scope.
    They need the least-solution theorem of the Tarjan-based closure (Util/Closure.v), which C25 does not
    provide yet.  PROVED below:
      - the model of isNullable decides "derives the empty string" for every rule body (universal);
+     - closed set expressions (no named sets) over a plain grammar: their evaluation from the tables is the
+       declarative meaning [set_den] (C15_closed_sets_exact);
      - the executable specification tables used as the oracle are EXACTLY the inductive definitions
        nullable_in / first_in / last_in / any_in / follow_in / precede_in whenever their run-time stability check passes (P3: a proved
        oracle, universal in the grammar).
@@ -53,6 +55,15 @@ Proof.
   - intros lt t Hlt Ht. exact (spec_precede_exact T rules nl lt t H Hl (spec_last_exact T rules nl H Hl lt Hlt) Ht).
 Qed.
 
+(* set expressions without named sets over a plain grammar: the evaluation from the proved tables (used as the
+   second oracle) is the declarative meaning: union / intersection / complement of any/first/last/precede/follow *)
+Theorem C15_closed_sets_exact :
+  forall T rules tb,
+    (forall r, In r rules -> T <= fst r) ->
+    all_tables T rules = Some tb ->
+    forall t, closed_tset t = true -> forall a, In a (eval_set T tb t) <-> (0 <= a < T /\ set_den T rules t a).
+Proof. exact eval_set_exact. Qed.
+
 (* non-vacuity.  terminals a b c = 0 1 2;  N0 (3): N1 a | b ;  N1 (4): %empty | c N1 ;  input N0 *)
 Definition ex_vals : list expr :=
   [EChoice [ESeq [ERef 4 []; ERef 0 []]; ERef 1 []]; EChoice [EEmpty; ESeq [ERef 2 []; ERef 4 []]]].
@@ -80,3 +91,4 @@ Proof. vm_compute. repeat split; reflexivity. Qed.
 
 Print Assumptions C15_is_nullable_decides_empty.
 Print Assumptions C15_sets_exact_partial.
+Print Assumptions C15_closed_sets_exact.
